@@ -27,7 +27,7 @@ TraceNext ==
   \/ IsEvent("wait") /\ Wait(Ev.ok)
   \/ IsEvent("get")  /\ Get /\ SameGet(GetEv(c), ObsEv(c, Ev))
   \/ IsEvent("resp") /\ Respond(Ev.status, Ev.body)
-  \/ IsEvent("ret")  /\ Return /\ RetEv(pend) = ObsEv(c, Ev)
+  \/ IsEvent("ret")  /\ Return /\ RetEv(pend) = ObsEv(c, Ev) /\ ZeroOnError(ClassOf(Ev), Ev.zero)
   \/ IsEvent("end")  /\ pc = "done" /\ UNCHANGED vars
 
 TraceSpec == TraceInit /\ [][TraceNext]_tvars
